@@ -2,7 +2,7 @@
 
 from __future__ import annotations
 
-from collections.abc import Sequence
+from collections.abc import Iterable, Sequence
 from dataclasses import dataclass
 from typing import (
     Callable,
@@ -1087,6 +1087,9 @@ def remove_redundant_transpose_reduce_ir(graph: ir.Graph) -> None:
             if reducer_consumers[0] is not node:
                 # Should be covered by consumers scan logic, but double check
                 continue
+            if _value_is_observed(graph, nodes, reducer_out_val):
+                # The NHWC reducer output is a graph output / nested-graph capture.
+                continue
 
             # 1. Update Reducer inputs
             # Input 0 becomes T1 input 0
@@ -1247,6 +1250,9 @@ def remove_redundant_transpose_add_forests_ir(graph: ir.Graph) -> None:
             if match is None:
                 continue
             add_nodes, perm_fwd, _perm_inv, input_transposes, output_transposes = match
+            if _any_node_output_observed(graph, nodes, add_nodes):
+                # An Add output is observed in its current layout; keep it.
+                continue
 
             # Rewrite Add inputs from Transpose(perm_fwd)(x) to x.
             for add_node in add_nodes:
@@ -1415,6 +1421,8 @@ def remove_redundant_transpose_pairs_ir(graph: ir.Graph) -> None:
                 or not _is_inverse_perm(perm_fwd, perm_inv)
             ):
                 continue
+            if _any_node_output_observed(graph, nodes, add_chain):
+                continue
 
             # Rewrite: move Add chain to pre-transpose layout (NCHW).
             for node in add_chain:
@@ -1512,6 +1520,8 @@ def remove_redundant_transpose_pairs_ir(graph: ir.Graph) -> None:
                 continue
             if t2_node not in output_transposes:
                 continue
+            if _any_node_output_observed(graph, nodes, elem_nodes):
+                continue
 
             # Rewrite: replace transpose outputs feeding elementwise nodes with
             # their pre-transpose sources.
@@ -1549,8 +1559,11 @@ def remove_redundant_transpose_pairs_ir(graph: ir.Graph) -> None:
                 t_out = _node_output(t_node)
                 if t_out is None:
                     continue
-                if not _consumer_nodes(live_nodes, t_out):
-                    graph.remove(t_node)
+                if _consumer_nodes(live_nodes, t_out):
+                    continue
+                if _value_is_observed(graph, live_nodes, t_out):
+                    continue
+                graph.remove(t_node)
 
             changed = True
             break
@@ -1600,6 +1613,10 @@ def remove_redundant_transpose_pairs_ir(graph: ir.Graph) -> None:
                 if not ok:
                     break
             if not ok:
+                continue
+            if _value_is_observed(graph, nodes, t1_out) or _any_node_output_observed(
+                graph, nodes, elem_nodes
+            ):
                 continue
             t1_in = _first_input(T1)
             if t1_in is None:
@@ -1679,6 +1696,12 @@ def remove_redundant_transpose_pairs_ir(graph: ir.Graph) -> None:
                     )
                 t1_in = _first_input(T1)
                 if t1_in is None:
+                    i += 1
+                    continue
+                if _value_is_observed(
+                    graph, nodes, T1_out
+                ) or _any_node_output_observed(graph, nodes, allowed_nodes):
+                    # An intermediate value is visible in its transposed layout.
                     i += 1
                     continue
                 if allowed_nodes:
@@ -1832,6 +1855,13 @@ def remove_redundant_reshape_pairs_ir(graph: ir.Graph) -> None:
                         break
                     if not safe_chain:
                         break
+
+            if safe_chain and (
+                _value_is_observed(graph, nodes, t1_out)
+                or _any_node_output_observed(graph, nodes, allowed_fwd)
+            ):
+                # An intermediate value is a graph output / nested-graph capture.
+                safe_chain = False
 
             if not safe_chain:
                 i += 1
@@ -2201,6 +2231,32 @@ def _value_is_graph_output(graph: ir.Graph, value: ir.Value | None) -> bool:
             return True
         if value_name and value_name == _v_name(output):
             return True
+    return False
+
+
+def _value_is_observed(
+    graph: ir.Graph, nodes: Sequence[ir.Node], value: ir.Value | None
+) -> bool:
+    """Return whether a value is visible outside the node list.
+
+    ``_consumer_nodes`` only reports consuming nodes of the same graph; a value
+    that is also a graph output or captured by a nested graph must not change
+    meaning or disappear when a rewrite re-routes its producer.
+    """
+    if value is None:
+        return False
+    return _value_is_graph_output(graph, value) or _nested_graph_references_value(
+        nodes, value
+    )
+
+
+def _any_node_output_observed(
+    graph: ir.Graph, nodes: Sequence[ir.Node], candidates: Iterable[ir.Node]
+) -> bool:
+    for candidate in candidates:
+        for out in _node_outputs(candidate):
+            if _value_is_observed(graph, nodes, out):
+                return True
     return False
 
 
